@@ -67,6 +67,17 @@ def _bor(a, b):
     return z3.Or(a, b)
 
 
+_OPS = {
+    "le": lambda x, y: x <= y,
+    "lt": lambda x, y: x < y,
+    "ge": lambda x, y: x >= y,
+    "gt": lambda x, y: x > y,
+    "eq": lambda x, y: x == y,
+    "ne": lambda x, y: x != y,
+}
+_SWAP = {"le": "ge", "lt": "gt", "ge": "le", "gt": "lt", "eq": "eq", "ne": "ne"}
+
+
 class SB:
     """symbolic boolean"""
 
@@ -224,6 +235,8 @@ class SR:
         if isinstance(b, SR) and b.recip is a or (a.recip is not None and a.recip is b):
             return 1.0
         e, bad = SR._o(b)
+        if isinstance(b, SR) and getattr(ENG, "mulmode", "z3") == "uf" and not z3.is_rational_value(a.e) and not z3.is_rational_value(b.e):
+            return SR(ENG.mul_uf(a.e, e), _bor(a.bad, bad))
         return SR(a.e * e, _bor(a.bad, bad))
 
     __rmul__ = __mul__
@@ -268,49 +281,52 @@ class SR:
         return SR(z3.If(a.e >= 0, a.e, -a.e), a.bad)
 
     def _cmp(a, b, op):
+        if isinstance(b, SQ) and not isinstance(a, SQ):
+            return b._cmp(a, _SWAP[op])
+        f = _OPS[op]
         if isinstance(b, SR):
-            return SB(op(a.e, b.e))
+            return SB(f(a.e, b.e))
         if _isinf(b):
             return None
         if isinstance(b, (SI, SB)):
-            return SB(op(a.e, SR._o(b)[0]))
+            return SB(f(a.e, SR._o(b)[0]))
         if _is_num(b):
-            return SB(op(a.e, _rv(b)))
+            return SB(f(a.e, _rv(b)))
         return NotImplemented
 
     def __le__(a, b):
         if _isinf(b):
             return b > 0
-        return a._cmp(b, lambda x, y: x <= y)
+        return a._cmp(b, "le")
 
     def __lt__(a, b):
         if _isinf(b):
             return b > 0
-        return a._cmp(b, lambda x, y: x < y)
+        return a._cmp(b, "lt")
 
     def __ge__(a, b):
         if _isinf(b):
             return b < 0
-        return a._cmp(b, lambda x, y: x >= y)
+        return a._cmp(b, "ge")
 
     def __gt__(a, b):
         if _isinf(b):
             return b < 0
-        return a._cmp(b, lambda x, y: x > y)
+        return a._cmp(b, "gt")
 
     def __eq__(a, b):
         if _isinf(b):
             return False
         if b is None:
             return False
-        return a._cmp(b, lambda x, y: x == y)
+        return a._cmp(b, "eq")
 
     def __ne__(a, b):
         if _isinf(b):
             return True
         if b is None:
             return True
-        return a._cmp(b, lambda x, y: x != y)
+        return a._cmp(b, "ne")
 
     __hash__ = None
 
@@ -358,6 +374,63 @@ class SR:
 
     def copy(self):
         return self
+
+
+class SQ(SR):
+    """lazy quotient num/den of symbolic reals: comparisons are rewritten into products with the
+    denominator (linear when the other side is a constant), so that ratio tests such as
+    `theta <= theta_max` or `dist_factor >= 1` do not put a division into the solver."""
+
+    __slots__ = ("num", "den", "_e")
+
+    def __init__(self, num, den, bad=None):
+        self.num = num if isinstance(num, SR) else SR(num)
+        self.den = den if isinstance(den, SR) else SR(den)
+        self.bad = bad
+        self.recip = None
+        self.sumsq = None
+        self._e = None
+
+    @property
+    def e(self):
+        if self._e is None:
+            if getattr(ENG, "mulmode", "z3") == "uf":
+                self._e = ENG.div_uf(self.num.e, self.den.e)
+            else:
+                self._e = self.num.e / self.den.e
+        return self._e
+
+    def _cmp(a, b, op):
+        f = _OPS[op]
+        if _isinf(b):
+            return None
+        if isinstance(b, SQ):
+            l = a.num * b.den
+            r = b.num * a.den
+            pos = (a.den * b.den) > 0
+            return a._link(SB(z3.If(_be(pos), f(zexpr(l), zexpr(r)), f(zexpr(r), zexpr(l)))), f, b.e)
+        if isinstance(b, (SR, SI, SB)) or _is_num(b):
+            if _is_num(b) and b == 0:
+                rhs = _rv(0)
+            elif _is_num(b) and b == 1:
+                rhs = a.den.e
+            else:
+                rhs = zexpr(b * a.den)
+            return a._link(SB(z3.If(a.den.e > 0, f(a.num.e, rhs), f(rhs, a.num.e))), f, zexpr(b))
+        return NotImplemented
+
+    def _link(a, cond, f, other):
+        """with uninterpreted division the quotient term must agree with every comparison that
+        was decided by cross-multiplication (lazy instantiation of its defining property)"""
+        if getattr(ENG, "mulmode", "z3") == "uf" and ENG.mode == "sym":
+            ENG.solver.add(z3.Implies(a.den.e != 0, f(a.e, other) == cond.e))
+        return cond
+
+    def __neg__(a):
+        return SQ(-a.num, a.den, a.bad)
+
+    def __abs__(a):
+        return SQ(abs(a.num), abs(a.den), a.bad)
 
 
 def _exact_recip(b):
@@ -591,8 +664,10 @@ class Engine:
         self.notes = []
         self.samples = []
         self.errors = []
-        self.divmode = "z3"  # how symbolic/symbolic division is encoded
+        self.divmode = "lazy"  # how symbolic/symbolic division is encoded: lazy | z3 | uf
         self._div_uf = None
+        self._mul_uf = None
+        self.mulmode = "z3"  # 'uf': symbolic*symbolic products are uninterpreted (LRA+UF)
         self.path_hooks = []
 
     # -- per-path state
@@ -602,6 +677,7 @@ class Engine:
         self.uflog = []  # (fname, [arg exprs], result expr)
         self._fresh = {}
         self._dirty = True
+        self._mul_seen = set()
         self.tags = {}
 
     def fresh_name(self, prefix):
@@ -670,6 +746,10 @@ class Engine:
             ea, ba = SR._o(a)
             eb, bb = SR._o(b)
             return SR(ea / eb, _bor(ba, bb))
+        if self.divmode == "lazy":
+            ea, ba = SR._o(a)
+            eb, bb = SR._o(b)
+            return SQ(a if isinstance(a, SR) else SR(ea), b if isinstance(b, SR) else SR(eb), _bor(ba, bb))
         ea, ba = SR._o(a)
         eb, bb = SR._o(b)
         if self._div_uf is None:
@@ -685,6 +765,41 @@ class Engine:
             z3.Implies(ea == eb, q == 1),
         )
         return SR(q, _bor(ba, bb))
+
+    def mul_uf(self, x, y):
+        """x*y as an uninterpreted function with the sign/zero/square facts (keeps LRA+UF)"""
+        if x.get_id() > y.get_id():
+            x, y = y, x
+        if self._mul_uf is None:
+            self._mul_uf = z3.Function("MUL", z3.RealSort(), z3.RealSort(), z3.RealSort())
+        q = self._mul_uf(x, y)
+        k = q.get_id()
+        if k not in self._mul_seen:
+            self._mul_seen.add(k)
+            self.uflog.append(("MUL", [x, y], q))
+            if x.eq(y):
+                self.solver.add(q >= 0, (q == 0) == (x == 0))
+            else:
+                self.solver.add(
+                    (q == 0) == z3.Or(x == 0, y == 0),
+                    (q > 0) == z3.Or(z3.And(x > 0, y > 0), z3.And(x < 0, y < 0)),
+                )
+        return q
+
+    def div_uf(self, x, y):
+        if self._div_uf is None:
+            self._div_uf = z3.Function("DIV", z3.RealSort(), z3.RealSort(), z3.RealSort())
+        q = self._div_uf(x, y)
+        k = q.get_id()
+        if k not in self._mul_seen:
+            self._mul_seen.add(k)
+            self.uflog.append(("DIV", [x, y], q))
+            self.solver.add(
+                z3.Implies(y != 0, (q == 0) == (x == 0)),
+                z3.Implies(y != 0, (q > 0) == z3.Or(z3.And(x > 0, y > 0), z3.And(x < 0, y < 0))),
+                z3.Implies(z3.And(x == y, y != 0), q == 1),
+            )
+        return q
 
     # -- solver access
     def check(self, *extra):
